@@ -34,6 +34,9 @@ pub enum Dev {
     ErrSticky,
     /// this call returns ErrorKind::Interrupted and transfers nothing (the retryable non-failure of the Read/Write contract)
     Interrupted,
+    /// this call returns ErrorKind::WouldBlock and transfers nothing (a non-blocking source that has nothing yet: callers
+    /// that know their source call again later; the Read contract guarantees that an error return consumed nothing)
+    WouldBlock,
 }
 
 #[derive(Default)]
@@ -99,9 +102,17 @@ impl<T> Inst<T> {
                 p.interrupts_returned += 1;
                 Some(Dev::Interrupted)
             }
+            Some(Dev::WouldBlock) => {
+                p.interrupts_returned += 1;
+                Some(Dev::WouldBlock)
+            }
             d => d,
         }
     }
+}
+
+fn would_block() -> io::Error {
+    io::Error::new(io::ErrorKind::WouldBlock, "injected EWOULDBLOCK")
 }
 
 fn interrupted() -> io::Error {
@@ -119,6 +130,7 @@ impl<T: Read + Seek> Read for Inst<T> {
         match d {
             Some(Dev::Err) | Some(Dev::ErrSticky) => return Err(injected(Kind::Read)),
             Some(Dev::Interrupted) => return Err(interrupted()),
+            Some(Dev::WouldBlock) => return Err(would_block()),
             Some(Dev::Short(j)) => n = n.min(j),
             None => {}
         }
@@ -144,6 +156,7 @@ impl<T: Write> Write for Inst<T> {
         match d {
             Some(Dev::Err) | Some(Dev::ErrSticky) => return Err(injected(Kind::Write)),
             Some(Dev::Interrupted) => return Err(interrupted()),
+            Some(Dev::WouldBlock) => return Err(would_block()),
             Some(Dev::Short(j)) => n = n.min(j.max(1)),
             None => {}
         }
@@ -156,6 +169,7 @@ impl<T: Write> Write for Inst<T> {
         match self.point(Kind::Flush, 0) {
             Some(Dev::Err) | Some(Dev::ErrSticky) => Err(injected(Kind::Flush)),
             Some(Dev::Interrupted) => Err(interrupted()),
+            Some(Dev::WouldBlock) => Err(would_block()),
             _ => self.cur.flush(),
         }
     }
@@ -165,6 +179,7 @@ impl<T: Seek> Seek for Inst<T> {
         match self.point(Kind::Seek, 0) {
             Some(Dev::Err) | Some(Dev::ErrSticky) => Err(injected(Kind::Seek)),
             Some(Dev::Interrupted) => Err(interrupted()),
+            Some(Dev::WouldBlock) => Err(would_block()),
             _ => self.cur.seek(pos),
         }
     }
